@@ -584,7 +584,7 @@ Proof.
   intro Hb. split; [exact Hb|]. split; [cbn; lia|]. exists []. cbn. auto.
 Qed.
 
-Theorem toy_enc_contract : enc_contract TMember test toy_enc TERep phi tefin true.
+Theorem toy_enc_contract_g resets : enc_contract TMember test toy_enc TERep phi tefin resets.
 Proof.
   constructor; cbn [toy_enc c_step c_reset c_mid].
   - (* bounds *)
@@ -613,9 +613,11 @@ Proof.
     { rewrite E in E2. rewrite app_length in E2. destruct t; [reflexivity|simpl in E2; lia]. }
     subst t. rewrite app_nil_r in E. subst c.
     split; [assumption|]. split; [reflexivity|]. split; [assumption|].
-    unfold eafter_end. cbn [c_reset toy_enc]. subst st'.
-    split; [apply EInv_reset; destruct HR; assumption|].
-    unfold tefin. cbn. discriminate.
+    unfold eafter_end. subst st'.
+    assert (Hb : 1 <= e_blk st) by (destruct HR; assumption).
+    destruct resets; cbn [c_reset toy_enc].
+    + split; [apply EInv_reset; assumption|]. unfold tefin. cbn. discriminate.
+    + split; [apply (EInv_reset st Hb)|]. unfold tefin. cbn. discriminate.
   - (* fin *)
     intros st fed em inp cap fl HR HA. cbv zeta.
     destruct (toy_enc_facts st inp cap fl fed em HR HA) as (c & o & t & stop & st' & E & L1 & L2 & HS & _ & ->).
@@ -645,6 +647,9 @@ Proof.
     simpl in E2. rewrite app_nil_r in E3. apply (f_equal (@rev N)) in E3. rewrite !rev_involutive in E3. subst o'.
     apply Hphi. destruct c'; [reflexivity|simpl in E2; lia].
 Qed.
+
+Theorem toy_enc_contract : enc_contract TMember test toy_enc TERep phi tefin true.
+Proof. apply toy_enc_contract_g. Qed.
 
 Lemma toy_enc_init_rep blk maxin maxout greedy finrun : 1 <= blk ->
   TERep (toy_enc_init blk maxin maxout greedy finrun) [] [] /\ ~ tefin (toy_enc_init blk maxin maxout greedy finrun).
